@@ -414,15 +414,44 @@ class Visitor(ast.NodeVisitor):
             self.recomputed_values[node] = joined_str
             return joined_str
 
+    def _visit_elements_of_display(
+        self, elts: List[ast.expr]
+    ) -> Union[List[Any], Placeholder]:
+        """
+        Re-compute the elements of a list, tuple or set display.
+
+        A starred element has no value of its own; we re-compute the value which is starred and unpack it.
+        """
+        recomputed_elts = []  # type: List[Any]
+        placeholder_observed = False
+
+        for elt in elts:
+            if isinstance(elt, ast.Starred):
+                starred_value = self.visit(node=elt.value)
+                if starred_value is PLACEHOLDER:
+                    placeholder_observed = True
+                else:
+                    recomputed_elts.extend(starred_value)
+            else:
+                value = self.visit(node=elt)
+                if value is PLACEHOLDER:
+                    placeholder_observed = True
+                else:
+                    recomputed_elts.append(value)
+
+        # Please see "NOTE ABOUT PLACEHOLDERS AND RE-COMPUTATION"
+        if placeholder_observed:
+            return PLACEHOLDER
+
+        return recomputed_elts
+
     def visit_List(self, node: ast.List) -> Union[List[Any], Placeholder]:
         """Visit the elements and assemble the results into a list."""
         if isinstance(node.ctx, ast.Store):
             raise NotImplementedError("Can not compute the value of a Store on a list")
 
-        recomputed_elts = [self.visit(node=elt) for elt in node.elts]
-
-        # Please see "NOTE ABOUT PLACEHOLDERS AND RE-COMPUTATION"
-        if any(recomputed_elt is PLACEHOLDER for recomputed_elt in recomputed_elts):
+        recomputed_elts = self._visit_elements_of_display(elts=node.elts)
+        if recomputed_elts is PLACEHOLDER:
             return PLACEHOLDER
 
         self.recomputed_values[node] = recomputed_elts
@@ -433,20 +462,24 @@ class Visitor(ast.NodeVisitor):
         if isinstance(node.ctx, ast.Store):
             raise NotImplementedError("Can not compute the value of a Store on a tuple")
 
-        recomputed_elts = tuple(self.visit(node=elt) for elt in node.elts)
-        # Please see "NOTE ABOUT PLACEHOLDERS AND RE-COMPUTATION"
-        if any(recomputed_elt is PLACEHOLDER for recomputed_elt in recomputed_elts):
+        recomputed_list = self._visit_elements_of_display(elts=node.elts)
+        if recomputed_list is PLACEHOLDER:
             return PLACEHOLDER
+
+        assert isinstance(recomputed_list, list)
+        recomputed_elts = tuple(recomputed_list)
 
         self.recomputed_values[node] = recomputed_elts
         return recomputed_elts
 
     def visit_Set(self, node: ast.Set) -> Union[Set[Any], Placeholder]:
         """Visit the elements and assemble the results into a set."""
-        recomputed_elts = set(self.visit(node=elt) for elt in node.elts)
-        # Please see "NOTE ABOUT PLACEHOLDERS AND RE-COMPUTATION"
-        if any(recomputed_elt is PLACEHOLDER for recomputed_elt in recomputed_elts):
+        recomputed_list = self._visit_elements_of_display(elts=node.elts)
+        if recomputed_list is PLACEHOLDER:
             return PLACEHOLDER
+
+        assert isinstance(recomputed_list, list)
+        recomputed_elts = set(recomputed_list)
 
         self.recomputed_values[node] = recomputed_elts
         return recomputed_elts
